@@ -140,6 +140,13 @@ func (m recMetrics) RecordError(fatal bool, _ api.Attributes) {
 	m.log.add(Event{Kind: "merror", Fatal: fatal})
 }
 
+// NullMetrics discards every recording.
+type NullMetrics struct{}
+
+func (NullMetrics) RecordEvaluation(metrics.Decision, api.LevelVersion, metrics.Mode, api.Attributes) {}
+func (NullMetrics) RecordExemption(api.Attributes)                                                  {}
+func (NullMetrics) RecordError(bool, api.Attributes)                                                {}
+
 type fakeNS struct {
 	w   *WorldSpec
 	log *logger
@@ -536,4 +543,67 @@ func DeadlineCheck(cfg *CfgSpec, req *ReqSpec, o *Obs) string {
 		}
 	}
 	return ""
+}
+
+// ---------------------------------------------------------------- long-lived instance (C15)
+
+type worldKey struct{}
+
+// WithWorld attaches the oracle answers of one request to its context, so that a
+// single long-lived Admission can serve many requests, also concurrently.
+func WithWorld(ctx context.Context, w *WorldSpec) context.Context {
+	return context.WithValue(ctx, worldKey{}, w)
+}
+
+type ctxNS struct{}
+
+func (ctxNS) GetNamespace(ctx context.Context, name string) (*corev1.Namespace, error) {
+	w := ctx.Value(worldKey{}).(*WorldSpec)
+	if w.NSErr {
+		return nil, errors.New("injected namespace lookup failure")
+	}
+	return &corev1.Namespace{ObjectMeta: metav1.ObjectMeta{Name: name, Labels: w.NSLabels}}, nil
+}
+
+type ctxLister struct{}
+
+func (ctxLister) ListPods(ctx context.Context, ns string) ([]*corev1.Pod, error) {
+	w := ctx.Value(worldKey{}).(*WorldSpec)
+	if w.ListErr {
+		return nil, errors.New("injected list failure")
+	}
+	out := make([]*corev1.Pod, len(w.Pods))
+	copy(out, w.Pods)
+	return out, nil
+}
+
+// LongLived is one Admission serving requests whose oracle answers travel in the context.
+type LongLived struct {
+	A *admission.Admission
+}
+
+func NewLongLived(cfg *CfgSpec, ev policy.Evaluator, rec metrics.Recorder) (*LongLived, error) {
+	a, err := NewAdmission(cfg, ev, rec, ctxNS{}, ctxLister{})
+	if err != nil {
+		return nil, err
+	}
+	return &LongLived{A: a}, nil
+}
+
+// Serve answers one request; the response is returned as handed out (possibly a shared object).
+func (l *LongLived) Serve(req *ReqSpec, w *WorldSpec) (resp *admissionv1.AdmissionResponse, shared string, pan string) {
+	defer func() {
+		if e := recover(); e != nil {
+			pan = fmt.Sprint(e)
+		}
+	}()
+	log := &logger{}
+	resp = l.A.Validate(WithWorld(context.Background(), w), fakeAttrs{req, log})
+	shared = "Fresh"
+	for name, p := range admission.VerifSharedResponses() {
+		if p == resp {
+			shared = map[string]string{"allowed": "SharedAllowed", "privileged": "SharedPrivileged", "user": "SharedUser", "namespace": "SharedNamespace", "runtimeClass": "SharedRuntimeClass"}[name]
+		}
+	}
+	return
 }
